@@ -13,7 +13,8 @@ JVM1 = ["-XX:ActiveProcessorCount=2", "-XX:TieredStopAtLevel=1"]
 
 NEED = ["session-ok", "session-fail-fee-kept", "reject-over-declared-limit", "reject-expired", "reject-revoked-or-absent",
         "reject-not-allowed", "reject-auth-message", "fail-deposit-over-limit", "refund-in-session-tx", "period-reset",
-        "second-session-independent", "master-tx", "create-ok", "create-duplicate", "revoke-ok", "revokeall", "time"]
+        "second-session-independent", "master-tx", "mixed:ordinary-signed-message-before-violating-session-message",
+        "mixed:violating-session-message-first", "mixed:ordinary-then-always-denied-auth-message", "mixed:ok-ordinary-first", "mixed:ok-session-first", "mixed:fail-fee-kept", "create-ok", "create-duplicate", "revoke-ok", "revokeall", "time"]
 
 
 def classes(beh, acc):
@@ -51,6 +52,27 @@ def classes(beh, acc):
                     ks.add("reject-over-declared-limit")
             if st["sess"][s]["exists"] and before["exists"] and st["sess"][s]["reset"] > before["reset"]:
                 ks.add("period-reset")
+        elif act == "MixedTx":
+            sname = step["s"]
+            kinds = [m["k"] for m in step["msgs"]]
+            al = allow.get(sname)
+            ok_kinds = {"*": None, "send": {"send"}, "exec": {"pay", "paypanic", "grow", "shrink", "give"}, "execother": {"other"}}.get(al)
+            bad = [i for i, k in enumerate(kinds) if k != "osend" and (k == "revoke" or (ok_kinds is not None and k not in ok_kinds))]
+            alive = prev["sess"][sname]["exists"] and not (prev["sess"][sname]["expires"] > 0 and step["now"] >= prev["sess"][sname]["expires"])
+            if bad and alive:
+                # a session-signed message that violates the session's restrictions ...
+                if any(kinds[j] == "osend" for j in range(bad[0])):
+                    ks.add("mixed:ordinary-signed-message-before-violating-session-message")   # ... after a message of an ordinary signer
+                else:
+                    ks.add("mixed:violating-session-message-first")
+                if "revoke" in [kinds[i] for i in bad] and kinds[0] == "osend":
+                    ks.add("mixed:ordinary-then-always-denied-auth-message")
+            elif reply == "ok":
+                ks.add("mixed:ok-ordinary-first" if kinds[0] == "osend" else "mixed:ok-session-first")
+            elif reply == "fail":
+                ks.add("mixed:fail-fee-kept")
+            elif alive:
+                ks.add("mixed:reject-over-limit-or-funds")
         elif act == "MasterTx":
             ks.add("master-tx")
         elif act == "CreateSession":
@@ -166,6 +188,6 @@ def run(ctx):
     ctx.assumptions += [
         "'within one spend period' is read with the code's documented period rule (a new period starts at the first counted spend at or after start + period); sliding windows are not claimed",
         "1 unit = 10 000 ugnot = 100 bytes of realm storage at the default storage price; the driver calibrates (and aborts as inconclusive otherwise) that growth and shrinkage of a realm object lock / refund exactly that",
-        "every transaction pays a positive fee (a zero fee cannot be expressed on the wire); single-signer session transactions only; bank.MsgMultiSend cannot travel in a transaction; MsgRun is not generated",
+        "every transaction pays a positive fee (a zero fee cannot be expressed on the wire); session transactions have the master as only signer or the master plus one ordinary account (two sessions of one master cannot co-sign: one signature per signer address); bank.MsgMultiSend cannot travel in a transaction; MsgRun is not generated",
         "quick tier replays a stratified seeded sample of the edges of the 2-step graph plus simulated 8-step histories; the thorough tier replays every edge of the 2-step graphs, a seeded sample of 9000 edges of the 3-step graph (model-checked exhaustively) and 2000 simulated histories",
     ]
